@@ -443,6 +443,27 @@ def converter_case(ctx, k, tmp):
                         f'the same document asked for as {[str(x) if not isinstance(x, str) else x for x in spell]} (a converter maps models:// to its directory): '
                         f'{len({id(g) for g in got})} different resources returned, {len({id(r) for r in rset.resources.values()})} registered',
                         {'case': k, 'kind': 'converter'})
+        # a third document refers to the good one under the converted spelling: once the reference is followed the resource
+        # set knows the good document under that spelling too — one resource, two keys; taking the resource out of the set
+        # (what a failed load does with its resource) leaves no key that still leads to it
+        A.eStructuralFeatures.append(E.EReference('friend', A)) if not A.findEStructuralFeature('friend') else None
+        open(os.path.join(d, 'ref.xmi'), 'w').write(text.replace('<kids name="k"/>', '<kids name="k"><friend href="models://good.xmi#//@kids.0"/></kids>'))
+        try:
+            rr = rset.get_resource(URI(os.path.join(d, 'ref.xmi')))
+            tgt = rr.contents[0].kids[0].friend
+            reached = tgt is not None and tgt.name == 'k'
+        except Exception as e:
+            reached = f'raised {type(e).__name__}'
+        if reached is True:
+            ctx.evaluations += 1
+            ctx.count('converter/second-key')
+            keys = [key for key, r in rset.resources.items() if r is got[0]]
+            rset.remove_resource(got[0])
+            left = [key for key, r in rset.resources.items() if r is got[0]]
+            if left:
+                ctx.violate({'clause': 'trace-after-failure', 'format': 'xmi', 'what': 'resources', 'converter': True},
+                            f'a resource known to the set under {len(keys)} keys ({keys}) was taken out of it: {left} still lead to it',
+                            {'case': k, 'kind': 'converter'})
     finally:
         global_uri_converter.remove(Conv)
 
